@@ -48,13 +48,16 @@ def main():
     tier = "quick"
     if "--tier" in args:
         tier = args[args.index("--tier") + 1]
-    names = [a for a in args if not a.startswith("--") and a not in ("quick", "thorough")]
+    names = [a for a in args if not a.startswith("--") and a not in ("quick", "thorough") and not a.endswith(".json")]
     sdir = os.path.join(ROOT, "seeded")
     names = names or sorted(d for d in os.listdir(sdir) if os.path.isdir(os.path.join(sdir, d)))
     if sh(["git", "-C", REPO, "status", "--porcelain", "--untracked-files=no"]).stdout.strip():
         print("refusing: /repo has uncommitted changes")
         return 2
     res_path = os.path.join(sdir, "RESULTS.json")
+    if "--results" in args:
+        res_path = args[args.index("--results") + 1]
+        names = [n for n in names if n != res_path]
     try:
         results = json.load(open(res_path))
     except Exception:
